@@ -147,6 +147,8 @@ pub const RICH_GOALS: &[&str] = &[
     "exists<const N> { S<N>: Holds, S<N>: Foo }",
     "exists<const N, T> { [T; N]: Tri }",
     "forall<const N> { exists<T> { [T; N]: Len<N> } }",
+    "forall<'a, 'b, 'c> { if (R<'a, A>: Foo; R<'b, A>: Foo) { R<'c, A>: Foo } }",
+    "forall<'a, T> { if (T: Out<'a>) { exists<'b> { T: Out<'b> } } }",
     "exists<const N> { S<N>: Foo }",
     "exists<const N> { A: Len<N> }",
     "exists<const N, T> { T: Len<N> }",
@@ -285,6 +287,22 @@ pub fn gen_rich_goal(t: &mut Tape) -> String {
         let n = 1 + t.choose(3);
         let mut items = vec![];
         for _ in 0..n {
+            if depth > 0 && t.chance(12) {
+                // hypotheses, also over lifetime-parameterised types (two hypotheses can prove one goal with different
+                // lifetime constraints)
+                let nh = 1 + t.choose(2);
+                let hyps: Vec<String> = (0..nh)
+                    .map(|_| match t.choose(4) {
+                        0 => format!("R<{}, A>: Foo", rich_lt(t, sc)),
+                        1 => format!("{}: Foo", rich_ty(t, sc, 1)),
+                        2 => format!("{}: Out<{}>", rich_ty(t, sc, 1), rich_lt(t, sc)),
+                        _ => format!("{}: Bar<{}>", rich_ty(t, sc, 1), rich_ty(t, sc, 1)),
+                    })
+                    .collect();
+                let inner = if t.chance(50) { format!("R<{}, A>: Foo", rich_lt(t, sc)) } else { block(t, sc, depth - 1) };
+                items.push(format!("if ({}) {{ {} }}", hyps.join("; "), inner));
+                continue;
+            }
             if depth > 0 && t.chance(45) {
                 let mut sc2 = sc.clone();
                 let q = if t.chance(60) { "forall" } else { "exists" };
@@ -298,7 +316,9 @@ pub fn gen_rich_goal(t: &mut Tape) -> String {
     }
     let mut sc = RScope::default();
     let b = rich_binder(t, &mut sc);
-    format!("exists<{}> {{ {} }}", b, block(t, &sc, 3))
+    // mostly an unknown at the root; sometimes a universally quantified goal (closed when no inner block adds an unknown)
+    let q = if t.chance(25) { "forall" } else { "exists" };
+    format!("{}<{}> {{ {} }}", q, b, block(t, &sc, 3))
 }
 
 impl Property for C28 {
